@@ -5,6 +5,8 @@
  * Gen/Tie_Qloop.v no longer checks, to look for a concrete input where Loops.Model.split and the C code differ.
  *   B start stop nworkers   -> b <maxworkers> <startat>:<stopat> ...     (qt_loop_balance_inner, DONECOUNT)
  *   A start stop nworkers   -> a <maxworkers> <startat>:<stopat> ...     (qt_loopaccum_balance_inner, DONECOUNT)
+ *   G flavour start stop activesheps chunksize nworkers -> g <n> <startat>:<stopat> ...
+ *        one worker alone calling qqloop_get_iterations_{0 chunked,1 guided,2 factored} until it returns 0
  */
 #include <stdio.h>
 #include <stdlib.h>
@@ -63,6 +65,30 @@ int main(void)
                 long out = 0;
                 gen_tag = 'a';
                 qt_loopaccum_balance_inner(s, e, sizeof(long), &out, gen_bodyr, NULL, gen_acc, 0, DONECOUNT);
+            }
+        } else if (line[0] == 'G') {
+            long fl = 0, a = 0, b = 0, sh = 1, ch = 1, nw = 1;
+            if (sscanf(line + 1, "%ld %ld %ld %ld %ld %ld", &fl, &a, &b, &sh, &ch, &nw) == 6) {
+                qqloop_iteration_queue_t    iq;
+                struct qqloop_static_args   sa;
+                struct qqloop_wrapper_range range;
+                static long                 lo[20000], hi[20000];
+                long                        n = 0;
+                memset(&iq, 0, sizeof iq); memset(&sa, 0, sizeof sa); memset(&range, 0, sizeof range);
+                iq.start = a; iq.stop = b; iq.step = 1;
+                if (fl == 2) { iq.type_specific_data.phase = (a + b) / 2; }
+                sa.activesheps = (qthread_shepherd_id_t)sh; sa.chunksize = ch;
+                gen_nw = (qthread_worker_id_t)nw;
+                while (n < 20000) {
+                    int r = (fl == 0) ? qqloop_get_iterations_chunked(&iq, &sa, &range) :
+                            (fl == 1) ? qqloop_get_iterations_guided(&iq, &sa, &range) :
+                            qqloop_get_iterations_factored(&iq, &sa, &range);
+                    if (!r) { break; }
+                    lo[n] = range.startat; hi[n] = range.stopat; n++;
+                }
+                printf("g %ld", n);
+                for (long i = 0; i < n; i++) { printf(" %ld:%ld", lo[i], hi[i]); }
+                printf("\n");
             }
         } else if (line[0] == 'Q') {
             break;
